@@ -204,6 +204,32 @@ Proof.
 Qed.
 Print Assumptions C14_sync_established.
 
+(* A save() that fails part-way (the environment makes open / write / os.replace raise): the
+   exception surfaces exactly when there was something to write, and NOTHING changes - not the
+   file, not the saved-marker, not the contents; so changed stays true.  A failing load()
+   likewise leaves everything as it was. *)
+Theorem C14_failed_save_changes_nothing : forall st,
+  step schema File SaveFault st = (if changed schema st then ORaise Fault else OUnit, st)
+  /\ step schema File LoadFault st = (match file st with Some _ => ORaise Fault | None => OUnit end, st).
+Proof. intro st. simpl. split; [now destruct (changed schema st)|now destruct (file st)]. Qed.
+Print Assumptions C14_failed_save_changes_nothing.
+
+(* C14_changed_iff and the round-trip theorems quantify over ALL operations, failed saves and
+   loads included.  Spelled out for the case at hand: after any history that ends in a failed
+   save, changed is still exact, and a retry followed by a load into a fresh storage reads
+   back everything that is in the storage. *)
+Theorem C14_failed_save_then_retry : forall ops,
+  Forall (wf_op schema) ops -> Forall (fun o => o <> Fresh) ops ->
+  let st := snd (run schema File (ops ++ [SaveFault]) (fresh [] None)) in
+  (changed schema st = true <-> contents st <> synced st)
+  /\ contents (reload schema (save schema File st)) = contents st.
+Proof.
+  intros ops W NF st. split.
+  - apply C14_changed_iff. apply Forall_app. split; [assumption|]. repeat constructor.
+  - apply C14_roundtrip_history; apply Forall_app; split; try assumption; repeat constructor. discriminate.
+Qed.
+Print Assumptions C14_failed_save_then_retry.
+
 (* Non-vacuity: a concrete history with two devices whose identifier sets overlap, credentials
    with a non-ASCII character, an assignment, a save and a reload.  The hypotheses of the
    theorems above hold for it, it is not trivial (two records, changed flips), and the
@@ -213,7 +239,7 @@ Definition ex_a : cfg := [{| sproto := MRP; sid := Some [65]%N; screds := Some [
 Definition ex_b : cfg := [{| sproto := RAOP; sid := Some [67]%N; screds := None; spw := None |}].
 Definition ex_ops : list op :=
   [Get ex_a; Get ex_b; SetF 1 "raop" "credentials" (VStr [120]%N); Save;
-   SetF 0 "info" "name" (VStr []); Changed].
+   SetF 0 "info" "name" (VStr []); SaveFault; Changed].
 
 Example C14_ex_wf : Forall (wf_op schema) ex_ops /\ Forall (fun o => o <> Fresh) ex_ops /\ Forall benign (skipn 1 ex_ops).
 Proof.
@@ -228,7 +254,7 @@ Qed.
 
 Example C14_ex_run :
   let '(xs, st) := run schema File ex_ops (fresh [] None) in
-  xs = [OHandle 0; OHandle 1; OUnit; OUnit; OUnit; OBool true]
+  xs = [OHandle 0; OHandle 1; OUnit; OUnit; OUnit; ORaise Fault; OBool true]
   /\ cur st = [0; 1]
   /\ fst (get_settings schema [{| sproto := Companion; sid := Some [66]%N; screds := None; spw := None |}] st) = Ok 0
   /\ contents (reload schema (save schema File st)) = contents st
